@@ -457,12 +457,17 @@ Proof. vm_compute. split; reflexivity. Qed.
 
 (** * Listings *)
 Theorem listing_filtered : forall a p all h,
-  In h (listing_of a p all) <-> In h all /\ auth_allows a p (Some h) = true.
-Proof. intros. unfold listing_of. apply filter_In. Qed.
+  In h (listing_of a (F p FEntry) all) <-> In h all /\ auth_allows a p (Some h) = true.
+Proof. intros. unfold listing_of, readable. simpl. apply filter_In. Qed.
+
+(** A listing filtered with the general grant shows everything or nothing - it is not a per-CA filter. *)
+Theorem listing_general_all_or_nothing : forall a p all,
+  listing_of a (F p FGeneral) all = all \/ listing_of a (F p FGeneral) all = [].
+Proof. intros. unfold listing_of. simpl. destruct (auth_allows a p None); [left|right]; reflexivity. Qed.
 
 Theorem listing_rows :
   map (fun r => (rt_pat r, rt_filter r)) (filter (fun r => match rt_filter r with Some _ => true | None => false end) spec_routes)
-  = [ (api [Lit "bulk"; Lit "cas"; Lit "issues"], Some CaRead); (api [Lit "cas"], Some CaRead) ]%string.
+  = [ (api [Lit "bulk"; Lit "cas"; Lit "issues"], Some (F CaRead FEntry)); (api [Lit "cas"], Some (F CaRead FEntry)) ]%string.
 Proof. vm_compute. reflexivity. Qed.
 
 (** * The oracle is the boolean form of the model: whenever an observation agrees with the model, the
@@ -494,11 +499,13 @@ Proof.
         (destruct (forallb (gate_ok (c_auth c) (c_req c)) (rt_gates r)); [apply orb_true_r|];
          destruct (c_auth c); unfold refused; rewrite Hs; simpl; rewrite ?orb_true_r; reflexivity).
   - destruct (c_listing c) as [shown|]; [|reflexivity].
-    destruct (rt_filter r) as [p|] eqn:Ef; [|discriminate].
+    destruct (rt_filter r) as [f|] eqn:Ef; [|discriminate].
     pose proof (find_route_some _ _ _ Hf) as [Hin _].
-    assert (K : forallb (fun r => match rt_filter r with Some p => perm_eqb p CaRead | None => true end) spec_routes = true)
+    assert (K : forallb (fun r => match rt_filter r with
+                                  | Some f => perm_eqb (f_perm f) CaRead && match f_scope f with FEntry => true | FGeneral => false end
+                                  | None => true end) spec_routes = true)
       by (vm_compute; reflexivity).
-    rewrite forallb_forall in K. specialize (K r Hin). rewrite Ef in K. apply perm_eqb_eq in K. subst p.
-    apply forallb_forall. intros h Hh. pose proof (same_set_sub _ _ _ Hl Hh) as Hx.
-    apply listing_filtered in Hx. exact (proj2 Hx).
+    rewrite forallb_forall in K. specialize (K r Hin). rewrite Ef in K.
+    apply andb_true_iff in K. destruct K as [Kp Ks]. apply perm_eqb_eq in Kp.
+    unfold listing_of in Hl. destruct (f_scope f); [|discriminate]. rewrite Kp in Hl. exact Hl.
 Qed.
